@@ -54,6 +54,9 @@ pub fn run_ops(eng: &mut Engine, ops: &[Op], mut hook: Option<Hook>) -> (Result<
     let r = (|| -> Result<(), Fail> {
         eng.close_all_handles()?;
         eng.check_live_dump()?;
+        if eng.oracles.checker_every > 0 {
+            run_checker(eng, "end of history")?;
+        }
         if eng.oracles.final_reopen || eng.oracles.reopen_check {
             eng.check_reopen(false, "final")?;
             eng.check_reopen(true, "final")?;
@@ -66,8 +69,68 @@ pub fn run_ops(eng: &mut Engine, ops: &[Op], mut hook: Option<Hook>) -> (Result<
     }
 }
 
+/// Runs the independent checker on the current byte image.
+pub fn run_checker(eng: &mut Engine, when: &str) -> Result<(), Fail> {
+    let snap = eng.snapshot();
+    let rules = match crate::refparse::parse(&snap) {
+        Ok(p) => {
+            if p.difat.len() >= 2 {
+                eng.stats.bump("image_multi_fat_sectors");
+            }
+            if !p.difat_sectors.is_empty() {
+                eng.stats.bump("image_difat_sector");
+            }
+            if p.dir_chain.len() >= 2 {
+                eng.stats.bump("image_multi_dir_sectors");
+            }
+            if p.minifat_chain.len() >= 2 {
+                eng.stats.bump("image_multi_minifat_sectors");
+            }
+            if p.difat.len() >= 2 || !p.difat_sectors.is_empty() || p.dir_chain.len() >= 2 || p.minifat_chain.len() >= 2 {
+                eng.stats.bump("multi_table_image");
+            }
+            if !p.advisory.is_empty() {
+                eng.stats.bump("advisory_findings");
+            }
+            p.rules
+        }
+        Err(e) => vec![("R00-no-header".to_string(), e)],
+    };
+    eng.stats.bump("checker_runs");
+    if let Some((id, detail)) = rules.first() {
+        return Err(Fail::new(format!("rule|{}", id), format!("independent checker ({}): {} - {} [{} rule violations in total: {:?}]", when, id, detail, rules.len(), rules.iter().map(|r| r.0.clone()).collect::<std::collections::BTreeSet<_>>())));
+    }
+    Ok(())
+}
+
 fn after_step(eng: &mut Engine, i: usize, op: &Op, boundaries: &mut usize) -> Result<(), Fail> {
     let o = eng.oracles.clone();
+    if o.track_tables {
+        let snap_hdr: Vec<u8> = {
+            let d = eng.io.data.lock().unwrap();
+            let mut v = d.get(40..76).map(|s| s.to_vec()).unwrap_or_default();
+            v.extend_from_slice(&(d.len() as u64).to_le_bytes());
+            v
+        };
+        if eng.last_header != snap_hdr {
+            if !eng.last_header.is_empty() {
+                if eng.last_header[..36.min(eng.last_header.len())] != snap_hdr[..36.min(snap_hdr.len())] {
+                    eng.stats.bump("header_counters_changed");
+                    eng.tables_changed = true;
+                } else {
+                    eng.stats.bump("file_grew");
+                    eng.tables_changed = true;
+                }
+            }
+            eng.last_header = snap_hdr;
+        }
+        if eng.replaced_after_change && op.is_mutation() {
+            eng.stats.bump("mutation_after_replace_after_table_change");
+        }
+    }
+    if o.checker_every > 0 && (i + 1) % o.checker_every == 0 {
+        run_checker(eng, "after op")?;
+    }
     if o.dump_every > 0 && (i + 1) % o.dump_every == 0 {
         eng.check_live_dump()?;
     }
@@ -85,6 +148,9 @@ fn after_step(eng: &mut Engine, i: usize, op: &Op, boundaries: &mut usize) -> Re
                 let strict = (*boundaries / o.reopen_replace_every) % 2 == 0;
                 eng.reopen(strict, "replace")?;
                 eng.stats.bump("reopen_replace");
+                if eng.tables_changed {
+                    eng.replaced_after_change = true;
+                }
             }
         }
     }
